@@ -38,7 +38,8 @@ GEOMS = {
     'bl_hires': dict(df=2.7939677238464355, dt=18.253611008, fch1=6e9),
     'ghz2': dict(df=2.0, dt=0.5, fch1=1e9),
 }
-SIZES = [(3, 16), (2, 5)]      # (tchans, fchans)
+SIZES = [(3, 16), (4, 5)]      # (tchans, fchans); DESIGN had (2, 5), but blimpy cannot open .h5 files with fewer
+                               # than 3 integrations, which would leave half of the .h5 nodes to the h5py reader only
 
 OPS = ['save_fil>load', 'save_h5>load', 'get_waterfall', 'copy', 'slice_head', 'slice_tail', 'slice_mid',
        'dedrift_pos', 'dedrift_neg', 'from_wf_obj', 'pickle']
